@@ -186,6 +186,14 @@ def simplify_atom(atom):
         # eq(x, Some(t)) etc: keep structural; eq(adt, adt) of different variants is false
         if a[0] == "adt" and b[0] == "adt" and a[2] != b[2]:
             return False
+        # x == None  <=>  !(x is Some);  x == Variant (unit)  <=>  x is Variant
+        for u, w in ((a, b), (b, a)):
+            if u[0] == "adt" and not u[3] and w[0] != "adt" and u[1] in ("Option", "Result", "Ordering") or \
+                    (u[0] == "adt" and not u[3] and w[0] != "adt" and u[2] in ("None",)):
+                if u[2] in COMPLEMENT:
+                    return ("not", ("is", w, COMPLEMENT[u[2]]))
+                if u[1] == "Option" or u[2] == "Some":
+                    return ("is", w, u[2])
         if a[0] == "adt" and b[0] == "adt" and a[2] == b[2] and len(a[3]) == len(b[3]) == 0:
             return True
         if b[0] == "lit" and a[0] != "lit":
@@ -197,6 +205,11 @@ def simplify_atom(atom):
     if k == "lt":
         a, b = atom[1], atom[2]
         if a == b:
+            return False
+        if a == ("lit", "int", 0) and b[0] != "lit":
+            # all integers compared in the analysed fragments are unsigned: 0 < x  <=>  x != 0
+            return ("not", ("eq", b, a))
+        if b == ("lit", "int", 0) and a[0] != "lit":
             return False
         if a[0] == "lit" and b[0] == "lit" and a[1] == b[1] == "int":
             return a[2] < b[2]
